@@ -6,9 +6,11 @@ Statements only; proofs by reference to `SchedLemmasC09` (Part A: the per-task m
 
 Reading of the property text.  "changes along the lifecycle": the status moves *forward* in the order
 waiting → preparing → submitted → running → succeeded | failed (submit-failed from waiting / preparing /
-submitted, expired from waiting), stages may be skipped forward ("started before submitted" is an event
-order the property quantifies over), or returns to waiting from preparing / submitted / running for an
-automatic retry (`Msg.Allowed`).  The full statement is false on cylc-flow: `lifecycle_full` /
+submitted, expired from waiting), stages may be skipped forward once a job exists ("started before
+submitted" is an event order the property quantifies over), or returns to waiting from preparing / submitted /
+running for an automatic retry (`Msg.Allowed`).  Out of waiting the only steps are job preparation and
+expiry: a task waiting for its automatic retry is never moved by the job that failed
+(`retry_pending_ignored`).  The full statement is false on cylc-flow: `lifecycle_full` /
 `lifecycle_counterexample`; what holds is `lifecycle_partial`, for every input outside the explicit
 set `Msg.Deviant` (findings believed-reversal and final-not-terminal).
 -/
@@ -129,6 +131,32 @@ theorem lifecycle_partial (ot : Option TaskDefn) (hs : StdOut ot) (f : Nat) (ps 
        (msg = "submit-failed" ∧ ps.x.subTry < subMax ot ∧
           (step ot (f + 3) ps flag sn msg).1.x.subTry = ps.x.subTry + 1))) :=
   lifecycle_step ot hs f ps flag sn msg hg hdev
+
+/-- **a task waiting for its automatic retry is not moved by the job that failed**: while the proxy is
+waiting under the submit number of the failed job with a retry consumed, every message — duplicates and late
+messages of that job, its poll results, submit results; any flag, text, submit number — is dropped: status,
+outputs, try counters unchanged, no poll. -/
+theorem retry_pending_ignored (ot : Option TaskDefn) (fuel : Nat) (ps : PS) (flag : Flag) (sn : Nat) (msg : String)
+    (htr : ps.tr = false) (hw : ps.x.status = .waiting) (hsn : ps.x.submitNum > 0)
+    (htry : ps.x.subTry > 0 ∨ ps.x.execTry > 0) : step ot fuel ps flag sn msg = (ps, false) :=
+  retry_pending_dropped ot fuel ps flag sn msg htr hw hsn htry
+
+/-- … and at the scheduler level the whole state is unchanged, for every instance graph and state -/
+theorem retry_pending_ignored_sched (g : Graph) (fuel : Nat) (s : State) (p : Int) (n : String) (x : Proxy)
+    (flag : Flag) (sn : Nat) (msg : String) (h : s.get? p n = some x) (hw : x.status = .waiting)
+    (hsn : x.submitNum > 0) (htry : x.subTry > 0 ∨ x.execTry > 0) :
+    processMessage g fuel s p n flag sn msg = (s, false) := by
+  cases fuel with
+  | zero => unfold processMessage; rfl
+  | succ fuel =>
+    unfold processMessage
+    have hl : lookup s p n = some (x, false) := by unfold lookup; rw [h]
+    simp only [hl]
+    rcases htry with ht | ht <;> simp [hw, hsn, ht]
+
+/-- the guard is what the example needs: a retried task waiting under job 1 ignores the late `started` -/
+example : (step (some exT) 4 ⟨{ (exP .waiting ["submitted", "started"]).x with execTry := 1 }, false⟩
+    .polled 1 "started").1.x.status = .waiting := by decide
 
 /-- consecutive statuses of a trace respect the lifecycle -/
 def Lifecycle : List Status → Prop
